@@ -9,7 +9,9 @@
    A plan is a set of triples <<member, topic, partition>>.                        *)
 EXTENDS BalanceOracle, TLC, Json
 
-CONSTANTS Members, Topics, MaxP, MaxOps, EmitCases, InitSmall
+CONSTANTS Members, Topics, MaxP, MaxOps, EmitCases, InitSmall,
+          Kinds,          \* operation kinds allowed in chains
+          AllSubscribeAll \* TRUE: every member subscribes to every topic (identical subscriptions family)
 
 -----------------------------------------------------------------------------
 (* ---------- the rebalance-chain machine ---------- *)
@@ -25,6 +27,7 @@ Init ==
   /\ \A m \in Members : (m \in mem) <=> (sub[m] # {})
   /\ np \in [Topics -> 0..MaxP]
   /\ \A t \in Topics : np[t] > 0          \* chains start with all topics existing
+  /\ AllSubscribeAll => \A m \in mem : sub[m] = Topics
   /\ InitSmall => Cardinality(mem) = 1    \* simulation cfgs grow the group through Join operations
   /\ init0 = [mem |-> mem, sub |-> sub, np |-> np]
   /\ hist = <<>>
@@ -56,10 +59,11 @@ SetParts(t, n) ==
 
 Next ==
   /\ Len(hist) < MaxOps
-  /\ \/ Same
-     \/ \E m \in Members, ts \in SUBSET Topics : Join(m, ts) \/ ChangeSub(m, ts)
-     \/ \E m \in Members : Leave(m)
-     \/ \E t \in Topics, n \in 0..MaxP : SetParts(t, n)
+  /\ \/ "same" \in Kinds /\ Same
+     \/ "join" \in Kinds /\ \E m \in Members, ts \in SUBSET Topics : (AllSubscribeAll => ts = Topics) /\ Join(m, ts)
+     \/ "sub" \in Kinds /\ \E m \in Members, ts \in SUBSET Topics : ChangeSub(m, ts)
+     \/ "leave" \in Kinds /\ \E m \in Members : Leave(m)
+     \/ "parts" \in Kinds /\ \E t \in Topics, n \in 0..MaxP : SetParts(t, n)
 
 Spec == Init /\ [][Next]_vars
 
